@@ -1855,10 +1855,12 @@ fn run_tags(args: &Args) -> Report {
     );
     install_probe(); // only counts: fleet.attempt fires on broadcast threads that carry no case
     let (cfgs, space) = if args.thorough() {
-        (tag_configs(&["a", "b", "c"], 4), "all 4680 assignments of subsets of {a,b,c} to 1..=4 nodes x all 16 subsets of {a,b,c,zz}")
+        ({ let mut c = tag_configs(&["a", "b", "c"], 4); c.extend(tag_configs(&["a", " a", ""], 3)); c }, "all 4680 assignments of subsets of {a,b,c} to 1..=4 nodes x all 16 subsets of {a,b,c,zz}")
     } else {
         let mut c = tag_configs(&["a", "b"], 4);
         c.extend(tag_configs(&["a", "b", "c"], 3));
+        // tags are opaque strings: "a", " a" and the empty string are three different tags
+        c.extend(tag_configs(&["a", " a", ""], 2));
         (c, "all 340 assignments of subsets of {a,b} to 1..=4 nodes x all 8 subsets of {a,b,zz}, and all 584 assignments of subsets of {a,b,c} to 1..=3 nodes x all 16 subsets of {a,b,c,zz}")
     };
     let cfgs = Arc::new(cfgs);
